@@ -42,7 +42,7 @@ CHECKS = {
  "C19": ("E2", "All trees up to 3(4) nodes x class assignment per node (Node, AnyNode, user NodeMixin, falsy user class, SymlinkNode with every target incl. link-to-link and cross-tree) and LightNodeMixin trees x every entry node x pickle protocols 0-5 + deepcopy: isomorphism, position, disjointness, C01 invariant, symlink targets, and every single structural op applied to the copy/original leaves the other untouched and consistent.",
          "Bounded sizes; recursion depth far below the interpreter limit.", E2T + " + one-step mutation exploration of every copy"),
  "C20": ("E1", "Symlink universe (2 nodes, link, link-to-link, cross links): full E1 exploration with C01-C03 oracles and target-independence; from every forest state all interleavings of length <=3 of attribute writes (through link / on target), structural calls and reads with the relational oracle getattr(link, x) == getattr(target, x).",
-         "Bounded: N<=5, interleavings <=3, attribute names {foo, bar, name}.", E1T + "; relational attribute oracle over all interleavings"),
+         "Bounded: N<=5, interleavings <=3, attribute names {foo, bar, name, __tag__, godparent, target_id, baz, nope}.", E1T + "; relational attribute oracle over all interleavings"),
  "C16": ("E1", "Every (reachable forest, call) with hooks that snapshot the forest: exact hook log vs the specified sequence, monitor law between consecutive hook events, post-hook exceptions of parent assignments.",
          "Bounded: N<=4(5), <=1(2) hook faults. Trusted: SpecModel hook grammar.", E1T + "; exact hook-log comparison and snapshot monitor"),
 }
